@@ -315,6 +315,10 @@ func checkC14(c *Ctx) {
 		b.WriteString("\nfunc Main() {\n")
 		for i := lo; i < hi; i++ {
 			fmt.Fprintf(&b, "\tprintln(V%d)\n\tfmt.Print(V%d)\n\tfmt.Println()\n\tprintln(fmt.Sprint(V%d))\n", i, i, i)
+			fmt.Fprintf(&b, "\tprintln(fmt.Sprintf(\"%%v\", V%d))\n", i)
+			if c14UntypedOK(vals[i]) {
+				fmt.Fprintf(&b, "\tprintln(fmt.Sprintf(\"%%v\", %s))\n", vals[i].lit)
+			}
 			if i%2 == 0 && i+1 < hi {
 				fmt.Fprintf(&b, "\tfmt.Println(V%d, V%d)\n", i, i+1)
 			}
@@ -335,11 +339,17 @@ func checkC14(c *Ctx) {
 			want.WriteByte('\n')
 			want.Write(t)
 			want.WriteByte('\n')
+			want.Write(t)
+			want.WriteByte('\n')
+			if c14UntypedOK(vals[i]) {
+				want.Write(t)
+				want.WriteByte('\n')
+			}
 			if i%2 == 0 && i+1 < hi {
 				want.Write(texts[len(vals)+i/2])
 			}
 		}
-		c.Evaluations += int64(4 * (hi - lo))
+		c.Evaluations += int64(5 * (hi - lo))
 		if res.Stdout != want.String() {
 			// locate the first differing value
 			gl, wl := strings.Split(res.Stdout, "\n"), strings.Split(want.String(), "\n")
@@ -570,4 +580,14 @@ func c14Cyclic(c *Ctx) {
 		fatalf("negative control (rendering that did not return) not flagged: %v", nb)
 	}
 	c.Extra["negative_control"] = "a fabricated non-terminating rendering was flagged by Trace_Render as expected"
+}
+
+// c14UntypedOK: the literal of a scalar of default type may be written directly as an operand of fmt.Sprintf (an
+// untyped constant takes its default type there, so the text is the same as for the typed variable).
+func c14UntypedOK(v *fmtVal) bool {
+	switch v.goTy {
+	case "int", "float64", "string", "bool":
+		return (v.T == "int" || v.T == "flt" || v.T == "str" || v.T == "bool") && !strings.Contains(v.lit, "(")
+	}
+	return false
 }
